@@ -410,9 +410,11 @@ func TestVerifHs13Cookie(t *testing.T) {
 		}
 		for _, ht := range []int{20, 16} {
 			sets := [][]hs13Inject{
-				{stale(600, 101, ht)},
-				{stale(600, 101, ht), stale(1600, 102, ht), stale(2200, 103, ht)},
-				{stale(100, 101, ht), stale(200, 102, ht), stale(300, 103, ht)},
+				// record sequence numbers inside the replay window of the genuine records (a forged record
+				// far ahead, e.g. 101, would push the window past them and wedge the handshake: not this property)
+				{stale(600, 60, ht)},
+				{stale(600, 60, ht), stale(1600, 61, ht), stale(2200, 62, ht)},
+				{stale(100, 60, ht), stale(200, 61, ht), stale(300, 62, ht)},
 			}
 			for _, in := range sets {
 				jobs = append(jobs, hs13Job{v, nil, hs13Opt{SilenceUntil: 2500 * time.Millisecond, SilenceTo: "client", Inject: in, Limit: 300 * time.Second}})
